@@ -601,7 +601,7 @@ open OjgVerif
 work-list machine over `L`/`P` is the skeleton over `S`, for paths that do not end in a bare descent (there the
 machines report the node itself, which a `take 1` last selection does not) -/
 theorem denV_eq_evalSel_gen (sib : Bool) (S : Sel) (L P : Frag → JV → List JV)
-    (hsets : S.sets = fun _ => true)
+    (hsets : sib = false ∨ S.sets = fun _ => true)
     (hdesc : ∀ v, S.inner .descent v = nodesInner v)
     (hL : ∀ f v, isDescent f = false → L f v = (S.last f v).map (·.2))
     (hP : ∀ f v, isDescent f = false → (P f v).reverse = (S.inner f v).map (·.2)) :
@@ -638,7 +638,8 @@ theorem denV_eq_evalSel_gen (sib : Bool) (S : Sel) (L P : Frag → JV → List J
         cases sib with
         | true =>
           have hcond : (true && isDescent Frag.descent && !isDescent f) = true := by rw [hf']; rfl
-          rw [if_pos hcond, hsets, sibEval_true]
+          have hsets' : S.sets = fun _ => true := hsets.resolve_left (by simp)
+          rw [if_pos hcond, hsets', sibEval_true]
           simp only [fresh]
           cases S.inner f v with
           | nil => simp [sibList]
@@ -689,7 +690,7 @@ theorem firstMach_eq_firstM (cfg : Cfg) (rep : Rep)
       (fun _ _ => rfl) (drop_ne_descent _ ht)]
     rw [run_eq_denV _ _ _ f r d _ (Nat.le_succ _)]
     rw [denV_eq_evalSel_gen cfg.descentSiblings (First.sel cfg rep) (First.lastV cfg rep) (First.pushV cfg rep)
-      rfl (first_inner_descent cfg rep hcut) (fun _ _ _ => rfl)
+      (Or.inr rfl) (first_inner_descent cfg rep hcut) (fun _ _ _ => rfl)
       (fun f v _ => by simp [First.pushV, First.sel]) (f :: r) d ht]
 
 theorem has_inner_eq_first (cfg : Cfg) (rep : Rep) (hd : cfg.hasTypedDescent = false) (hh : cfg.hasTypedMap = false)
@@ -713,7 +714,7 @@ theorem hasMach_eq_hasM (cfg : Cfg) (rep : Rep) (hd : cfg.hasTypedDescent = fals
       (drop_ne_descent _ ht)]
     rw [run_eq_denV _ _ _ f r d _ (Nat.le_succ _)]
     rw [denV_eq_evalSel_gen cfg.descentSiblings (Has.sel cfg rep) (First.lastV cfg rep) (Has.pushV cfg rep)
-      hsets (fun v => by simp only [Has.sel]; rw [has_inner_eq_first cfg rep hd hh, first_inner_descent cfg rep hcut])
+      (Or.inr hsets) (fun v => by simp only [Has.sel]; rw [has_inner_eq_first cfg rep hd hh, first_inner_descent cfg rep hcut])
       (fun _ _ _ => rfl) (fun f v _ => by simp [Has.pushV, Has.sel]) (f :: r) d ht]
     simp
 
